@@ -19,7 +19,8 @@
   "what is proved: (1) result 0 <=> all searches failed, and then no run of elem_size blocks that starts below LL is free (pointwise at P); otherwise the result is the answer of the LAST ext2fs_get_free_blocks2 query, whose window is one of: [start_blk, start_blk + size) (packing behind the previous group's table; tried only when start_blk != 0 and inside the filesystem), [FF, LL) (the flex group; first for `size` blocks = room for the remaining groups' tables capped at a quarter group, then for elem_size), [first data block, LL) (in front; only when nothing is free inside the flex group); (2) the run of min(size, elem_size) blocks at the result is inside the filesystem and contains no allocated block - a full element when size >= elem_size (when the inode table is larger than a quarter group the result is only a search hint; the caller searches again for the full length from there); (3) adjacency: when start_blk is usable and the elem_size blocks at start_blk are free, the result IS start_blk after a single query; (4) only bmap is consulted, only the two groups named above are looked up, nothing is modified (every other library function is undefined in the unit: a call would fail)",
   "OBSERVATION kept as a CHECK: with bigalloc the packing window [start_blk, start_blk + size) rounds down to nothing when it is shorter than a cluster; ext2fs_get_free_blocks2 then treats it as a CYCLIC search over the whole filesystem (the result is still free and inside the filesystem, but not bounded by the window); proved to need granularity != 0 and size < cluster ratio"
  ],
- "native": false
+ "native": false,
+ "no_cross_check": true
 }
 */
 /* VERIF-UNIT
